@@ -467,22 +467,24 @@ func (env *SpecEnv) importedPkg(name string) *types.Package {
 	if home == nil {
 		home = env.u.pkg
 	}
+	// the name as the package's files see it: the import alias if there is one, the imported
+	// package's own name otherwise (two imports may share a package name when one is aliased)
+	for _, f := range home.Syntax {
+		for _, is := range f.Imports {
+			path, _ := strconv.Unquote(is.Path.Value)
+			for _, imp := range home.Types.Imports() {
+				if imp.Path() != path {
+					continue
+				}
+				if (is.Name != nil && is.Name.Name == name) || (is.Name == nil && imp.Name() == name) {
+					return imp
+				}
+			}
+		}
+	}
 	for _, imp := range home.Types.Imports() {
 		if imp.Name() == name {
 			return imp
-		}
-	}
-	// also by import alias in the files
-	for _, f := range home.Syntax {
-		for _, is := range f.Imports {
-			if is.Name != nil && is.Name.Name == name {
-				path, _ := strconv.Unquote(is.Path.Value)
-				for _, imp := range home.Types.Imports() {
-					if imp.Path() == path {
-						return imp
-					}
-				}
-			}
 		}
 	}
 	if name == home.Types.Name() {
